@@ -34,8 +34,15 @@ EXPLANATION = ("Rules over the MIR of api_description::ApiDescription::{register
                "the per-parameter dispatch of validate_named_parameters is read as path conditions, so nested matches, one flat match on a tuple, or-patterns, and contains_key / get(..).is_some() / match get(..) "
                "are the same table; the overlap test may be a loop or an iter().find/position/any search over the list that is pushed to; "
                "sets and maps of template variables may be built by filter_map + collect or by a loop with insert, with arms merged by or-patterns; validate_tags is interpreted with std's "
-               "find/any/all/position/filter summarised, so a for loop with early return and an Iterator::find are the same function to the check.")
+               "find/any/all/position/filter summarised (and indexing / get / first of the concrete tag list, Option::map_or, bool::then_some), so a for loop with early return, an Iterator::find and a "
+               "position(..) + map_or(Ok(()), |i| Err(.. tags[i])) are the same function to the check, as is a policy table moved into a method of the policy enum (inlined by the engine). "
+               "Anchors are roles, not places: the trie walk is the one function that creates edges (HttpRouter::insert, or the private function insert alone hands the root and the endpoint's path to); "
+               "whether segments follow a wildcard is a path fact established by a look-ahead next() or by the enumerate() position of the segment against the length of the segment list "
+               "(any exact comparison of index + a with len + b); the kind recorded for a path variable is whichever variant of whichever enum the map's construction stores for VarnameSegment / VarnameWildcard; "
+               "a set or map may be produced through stages (a shared helper yielding (name, kind) pairs as an iterator or a Vec, a map(|(n, _)| n) projection, collect); the per-parameter "
+               "dispatch may be the body of the loop over e.parameters or a closure / inlined function driven by try_for_each, whose verdict is its return value (a type check returned as it is accepts exactly when it answered Ok).")
 TRUSTED = ["rustc nightly MIR construction + const evaluation", "mirfacts extractor", "rules/engine.py (incl. the combinator normalisation of ctx.dsn), rules/lib_c01.py, rules/lib_c02.py, rules/absint.py", "std collections semantics", "std Iterator::{find, position, any, all, filter, count} semantics (summarised for the interpretation of validate_tags and for the overlap search)",
+           "std Iterator::{enumerate, map, try_for_each} and Vec::{len, index, as_slice} semantics (positions of enumerate count from 0 in iteration order; try_for_each stops at and returns the first Err)",
            "semver::Version PartialOrd (total order)", "type_util::type_is_scalar / type_is_string_enum (schemars-level, unit-tested upstream)"]
 
 VP = VALUE_PRESERVING
@@ -1659,7 +1666,8 @@ SELFTEST = [
      "why": 'the unknown-tag scan as Iterator::position + map_or, reporting the first configured tag'},
     # ---------------------------------------------------------------- benign variants
     {"name": 'benign-walk-over-enumerated-segments', "kind": "benign",
-     "edits": [(RT, "        let mut all_segments = all_segments.into_iter();\n", "        let nsegments = all_segments.len();\n"),
+     "edits": [(RT, "        let all_segments = route_path_to_segments(path.as_str());\n\n        let mut all_segments = all_segments.into_iter();\n",
+                "        let all_segments = route_path_to_segments(path.as_str());\n        let nsegments = all_segments.len();\n"),
                (RT, "while let Some(raw_segment) = all_segments.next() {", "for (index, raw_segment) in all_segments.into_iter().enumerate() {"),
                (RT, "if all_segments.next().is_some() {", "let is_last = index + 1 == nsegments;\n                    if !is_last {")],
      "why": 'behaviour-preserving: the manually advanced iterator with a look-ahead next() written as a for loop over enumerate(), the "segments follow the wildcard" test as the position of the element against the number of segments (named flag, negated)'},
